@@ -62,6 +62,60 @@ def _tm_worker(args):
         return case, None, None, f'{type(e).__name__}: {e}'
 
 
+def eager_scenario(kind: str, args: list[str]) -> list[str]:
+    """C12 on a loop with `asyncio.eager_task_factory` (Python 3.12): a coroutine that never suspends is finished when
+    `create_task` returns. Oracle only (the ready-queue model describes the default task factory): a finished task
+    frees its slot / is forgotten, and afterwards as many coroutines as the limit allows can start."""
+    import asyncio
+    import gc
+    if not hasattr(asyncio, 'eager_task_factory'):
+        return []
+    out: list[str] = []
+
+    async def main() -> None:
+        loop = asyncio.get_running_loop()
+        loop.set_exception_handler(lambda _l, _c: None)
+        loop.set_task_factory(asyncio.eager_task_factory)
+        mgr = TmImpl(kind, args)._make()
+        started: list[int] = []
+
+        async def quick() -> int:
+            return 1
+
+        async def boom() -> None:
+            raise RuntimeError('at once')
+
+        async def block(i: int, ev: asyncio.Event) -> None:
+            started.append(i)
+            await ev.wait()
+
+        async def settle() -> None:
+            for _ in range(20):
+                await asyncio.sleep(0)
+            gc.collect()
+        mgr.create_task(quick())
+        mgr.create_task(boom())
+        mgr.create_task(quick())
+        await settle()
+        if len(mgr.tasks) != 0:
+            out.append(f'{kind} {args}: {len(mgr.tasks)} finished task(s) are still tracked (coroutines that complete without '
+                       f'suspending, eager task factory)')
+        ev = asyncio.Event()
+        n = int(args[0]) if kind == 'limpar' else 3
+        for i in range(n):
+            mgr.create_task(block(i, ev))
+        await settle()
+        if len(started) != n or len(mgr.tasks) != n:
+            out.append(f'{kind} {args}: after three coroutines that finished at once, {len(started)} of {n} new coroutines were '
+                       f'started and {len(mgr.tasks)} are tracked')
+        ev.set()
+        await settle()
+        if len(mgr.tasks) != 0:
+            out.append(f'{kind} {args}: {len(mgr.tasks)} task(s) still tracked after everything finished')
+    asyncio.run(main())
+    return out
+
+
 class TmProp:
     component = 'tm'
     assumptions = [
@@ -130,11 +184,17 @@ class TmProp:
         else:
             for i in range(n):
                 self.check_case(run, gen_tm_case(base + i, self.kinds))
+        if self.pid == 'C12':
+            for kind, args in [('parallel', [])] + [('limpar', [str(k), pol]) for k in (1, 2, 3) for pol in ('skip', 'cancel_first', 'cancel_last')]:
+                run.evaluations += 1
+                run.stats['eager_factory_cases'] = run.stats.get('eager_factory_cases', 0) + 1
+                for msg in eager_scenario(kind, args):
+                    run.findings.append(Finding('oracle', msg, {'component': 'tm', 'kind': kind, 'args': args, 'lines': [], 'eager': True}))
         self.shrink(run)
 
     def shrink(self, run: Run) -> None:
         for f in run.findings:
-            if f.kind != 'oracle':
+            if f.kind != 'oracle' or f.replay.get('eager'):
                 continue
             case = dict(f.replay)
             lines = list(case['lines'])
@@ -158,4 +218,9 @@ class TmProp:
             break
 
     def replay(self, run: Run, obj: dict) -> None:
+        if obj.get('eager'):
+            run.evaluations += 1
+            for msg in eager_scenario(obj['kind'], obj['args']):
+                run.findings.append(Finding('oracle', msg, obj))
+            return
         self.check_case(run, obj)
